@@ -6,6 +6,8 @@ import (
 	"context"
 	"fmt"
 	"net"
+	"os"
+	"strconv"
 	"strings"
 	"sync"
 	"sync/atomic"
@@ -382,6 +384,28 @@ func runConfig(run *mon.Run, cfg config) {
 	for _, ps := range pushes {
 		totalPush += len(ps)
 	}
+	// the server's view of one stale hit: what happened to that key on the candidate's connection from the reply on
+	trace := func(h hit, cs []cand) []string {
+		var out []string
+		if len(cs) == 0 {
+			return out
+		}
+		c := cs[len(cs)-1]
+		for _, ev := range srv.Log() {
+			if ev.Conn != c.conn || ev.Seq < c.seq-40 || len(out) >= 60 {
+				continue
+			}
+			switch ev.Kind {
+			case "exec", "recv":
+				if strings.Contains(strings.Join(ev.Argv, " "), h.key) || (len(ev.Argv) > 0 && (ev.Argv[0] == "EXEC" || ev.Argv[0] == "MULTI" || ev.Argv[0] == "CLIENT")) {
+					out = append(out, fmt.Sprintf("%d %s %v -> %.40s", ev.Seq, ev.Kind, ev.Argv, ev.Reply.String()))
+				}
+			case "push":
+				out = append(out, fmt.Sprintf("%d push %.60s", ev.Seq, ev.Reply.String()))
+			}
+		}
+		return out
+	}
 	stale := 0
 	var mixedFillHits int64
 	for _, h := range hits {
@@ -419,7 +443,7 @@ func runConfig(run *mon.Run, cfg config) {
 		}
 		if !ok {
 			stale++
-			run.Violation("stale-hit-after-invalidation", h.call+"|"+cfg.name, map[string]any{"config": cfg.name, "call": h.call, "key": h.key, "value": h.value, "candidates": why})
+			run.Violation("stale-hit-after-invalidation", h.call+"|"+cfg.name, map[string]any{"config": cfg.name, "call": h.call, "key": h.key, "command": h.cmd, "value": h.value, "candidates": why, "trace": trace(h, cs)})
 		}
 	}
 	run.Observe("cached_calls", calls.Load())
@@ -475,7 +499,14 @@ func TestC06(t *testing.T) {
 		{name: "optin-adapter-mixed", adapter: true, mixed: true, multiplex: -1, readers: readers, ops: ops, kills: true},
 		{name: "bcast-lru-mixed", tracking: []string{"BCAST"}, mixed: true, multiplex: 1, readers: readers, ops: ops},
 	}
+	only := os.Getenv("VERIF_C06_ONLY") // debugging aid: run the named configurations only (never set by check.sh)
 	for i, cfg := range cfgs {
+		if only != "" && !strings.Contains(","+only+",", ","+cfg.name+",") {
+			continue
+		}
+		if n, _ := strconv.Atoi(os.Getenv("VERIF_C06_OPS")); n > 0 {
+			cfg.ops = n
+		}
 		cfg.seed = run.Seed*100 + int64(i)
 		runConfig(run, cfg)
 	}
